@@ -21,7 +21,8 @@ RULE = (
     "every universe of the C15 families x every installed subset x every target list is resolved through the real "
     "upgrade_resolver / min_install_resolver (verify_vdb True and False) and empty_tree_merge_plan. (U) upgrade: when a "
     "brute-force search over all final states of the universe (keep / replace-in-slot / add per (name, slot); no removals) "
-    "finds a valid, cycle-free final state holding, for every target, the highest version matching it, the resolver must "
+    "finds a valid, cycle-free final state holding, for every target, the highest version matching it (and the source "
+    "repository has no dependency cycle), the resolver must "
     "succeed and its final state must hold that version for every target, as the installed instance when the installed "
     "tree has that version. (M) min-install: when every target is matched by an installed package the resolver must "
     "succeed, keep an installed match and merge nothing matching a target. (D) every input resolved twice in one process "
@@ -343,9 +344,9 @@ def dims(tier):
 
 
 def tasks(tier):
-    n = len(family(tier))
+    nfam = len(family(tier))
     c = c15.CHUNK[tier]
-    out = [("enum", tier, i, min(i + c, n)) for i in range(0, n, c)]
+    out = [("enum", tier, i, min(i + c, nfam)) for i in range(0, nfam, c)]
     sl = seed_slice(tier)
     n = 6 if tier == "quick" else 24
     step = max(1, (len(sl) + n - 1) // n)
